@@ -80,6 +80,8 @@ def norm(t):
                 q = "numpy.count_nonzero"  # sum of a boolean array == number of True entries
             if q == "numpy.invert" and len(args) == 1:
                 return ("unary", "~", args[0])
+            if q == "numpy.where" and len(args) == 3 and not kws and args[0][0] == "unary" and args[0][1] == "~":
+                return ("call", fn, (args[0][2], args[2], args[1]), ())  # where(~c, a, b) == where(c, b, a)
             fn = ("global", q)
         if fn == ("builtin", "abs"):
             fn = ("global", "numpy.abs")
@@ -161,7 +163,7 @@ def is_boolish(t) -> bool:
     if t[0] == "cmp":
         return t[1] not in ("is", "is not", "in", "not in")
     if t[0] == "unary" and t[1] in ("~", "not"):
-        return is_boolish(t[2])
+        return True  # masks: `~flags` (the repository never inverts integer arrays)
     if t[0] == "binop" and t[1] in ("&", "|", "^"):
         return is_boolish(t[2]) and is_boolish(t[3])
     if t[0] == "call" and t[1][0] == "global" and t[1][1] in _BOOL_FUNCS:
